@@ -64,7 +64,9 @@ def get_gev_rank_one_estimate(
 
     # Wang et al. "Rank-1 Constrained [...]" just below Eq. 25
     scale = np.trace(covariance_matrix, axis1=-1, axis2=-2)
-    scale /= np.trace(cov_rank1, axis1=-1, axis2=-2)
+    # Not in place: the trace of a real valued covariance matrix is real,
+    # while the estimate is complex, when the noise covariance is complex.
+    scale = scale / np.trace(cov_rank1, axis1=-1, axis2=-2)
     return scale[..., None, None] * cov_rank1
 
 
